@@ -77,12 +77,20 @@ def seq_cmp_exec(rng):
     L = ["reset"] + L
     t = len(it) + 1
     seqs = []
+    dup = set()                              # (as RIGHT operand such a Tuple is walked by identity: known finding F-C09-tuple-dup-right)
     for _ in range(14):
         n = rng.choice([0, 1, 2, 2, 3, 4])
         elems = [rng.choice(it) for _ in range(n)]
-        k = rng.choice("ALU")
+        k = rng.choice("ALUW")
         L.append("V %d %s %d%s" % (t, k, n, "".join(" %d" % e for e in elems)))
+        if k == "W" and len(set(elems)) < n: dup.add(t)
         seqs.append(t); t += 1
+    for n in (2, 3, 4):                      # Tuples holding ONE object several times, against sequences with equal elements
+        e = rng.choice(it); o = rng.choice(it)
+        for k, el in (("W", [e] * n), ("W", [e] * (n - 1) + [o]), ("W", [o] + [e] * (n - 1)), (rng.choice("AL"), [e] * n), ("U", [e] * n)):
+            L.append("V %d %s %d%s" % (t, k, n, "".join(" %d" % x for x in el)))
+            if k == "W": dup.add(t)
+            seqs.append(t); t += 1
     trees = []
     for _ in range(8):
         n = rng.choice([0, 1, 2, 3])
@@ -101,7 +109,7 @@ def seq_cmp_exec(rng):
         n = rng.choice([0, 1, 2, 3])
         L.append("V %d %s %d%s" % (t, rng.choice("AL"), n, "".join(" %d" % rng.choice(st) for _ in range(n))))
         sseqs.append(t); t += 1
-    return L + all_pairs(seqs) + all_pairs(trees) + all_pairs(sseqs)
+    return L + [p for p in all_pairs(seqs) if int(p.split()[2]) not in dup] + all_pairs(trees) + all_pairs(sseqs)
 
 def hash_exec(rng):
     """equal values in different instances, allocation classes and construction histories"""
@@ -169,6 +177,26 @@ def hash_exec(rng):
                 g.append(t); t += 1
             groups.append(g)
             kinds_of[g[0]] = ("tree" if kind == "R" else "table") + ("-wide" if wide else "-narrow")
+    # maps keyed on plain structs whose size is not a multiple of the pointer size (12 and 5 bytes): slot layout rounds the key
+    for bsz in (12, 5):
+        bv = list(dict.fromkeys(blobs(rng, 10, bsz)))
+        d, bk = define("X", bv, t); L += d; t += len(bk)
+        for kind in "RB":
+            n = rng.randint(3, min(8, len(bk)))
+            ks = rng.sample(bk, n)
+            pairs = [(k, rng.choice(kt)) for k in ks]
+            surplus = [(k, rng.choice(kt)) for k in bk if k not in ks][:3]
+            g = []
+            for variant in range(3):
+                order = pairs[:] if variant == 0 else rng.sample(pairs, len(pairs))
+                if variant == 2:
+                    order = rng.sample(pairs + surplus, len(pairs) + len(surplus))
+                L.append("V %d %s %d%s" % (t, kind, len(order), "".join(" %d %d" % p for p in order)))
+                if variant == 2:
+                    for (k, _v) in rng.sample(surplus, len(surplus)): L.append("hrem %d %d" % (t, k))
+                g.append(t); t += 1
+            groups.append(g)
+            kinds_of[g[0]] = ("tree" if kind == "R" else "table") + "-key%d" % bsz
     for _ in range(6):
         n = rng.randint(0, 5)
         elems = [rng.choice(it) for _ in range(n)]
